@@ -31,6 +31,21 @@ def _subst(v, atom, by):
     return sp[0] * by + sp[1]
 
 
+def _cov(w, code):
+    """(symbol name, symbol) of the coverage at position ``code``: one symbol per position, whose rank is fixed when
+    it is created - the same coverage asked twice is the same number, two coverages are two numbers (the code under
+    analysis may remember what it computed per coverage)"""
+    code = Fr(code)
+    name = 'xq%d' % code if code.denominator == 1 else 'xq%d_%d' % (code.numerator, code.denominator)
+    w.ranks.setdefault(name, _rank(code))
+    return name, w.I.D.sym(name)
+
+
+# coverages every model is evaluated at before an edit and again after it (next to the positions the edit touches):
+# between the breakpoints of the initial models, and above every breakpoint a sequence inserts below coverage 1
+PROBES = (12, 39)
+
+
 def _attr(I, o, name):
     """the documented attribute ``name`` of a model as a user reads it: the stored value, or the value of the class's
     property of that name; None when the model has neither"""
@@ -43,6 +58,17 @@ def _attr(I, o, name):
     return None
 
 
+def _kind(v):
+    """which Python container the interpreter's sequence value stands for"""
+    if not isinstance(v, ListV):
+        return type(v).__name__
+    for flag, txt in (('is_tuple', 'tuple'), ('is_array', 'numpy array'), ('is_set', 'set'),
+                      ('is_iterator', 'one-shot iterator'), ('is_generator', 'generator')):
+        if getattr(v, flag, False):
+            return txt
+    return 'list'
+
+
 def _method(repo, ci, name):
     """(module, function node) of the method wherever the class or one of its bases defines it"""
     owner, fn = repo.find_method(ci, name)
@@ -52,7 +78,7 @@ def _method(repo, ci, name):
 class World:
     """one symbolic model instance + the reference list of (breakpoint, slope, position code) kept by the checker"""
 
-    def __init__(self, repo, n_init):
+    def __init__(self, repo, n_init, positional=False):
         self.ranks = {}
         self.I = Interp(repo, order=RankOrder(self.ranks, const_ranks=True))
         self.I.order.ranks = self.ranks
@@ -61,12 +87,18 @@ class World:
         self.pairs = [(C(0), D.sym('s0'), Fr(0))]
         for k in range(1, n_init):
             self.pairs.append((self.new_bp('b%d' % k, 10 * k), D.sym('s%d' % k), Fr(10 * k)))
-        self.obj = Obj('cov', self.ci, closed=True)
         self.counter = 0
-        r = self.I.call_method(self.obj, '__init__', [], {
-            'name_i': 'A', 'name_j': 'B',
-            'intervals': ListV([p[0] for p in self.pairs]), 'slopes': ListV([p[1] for p in self.pairs])})
-        self.init_result = r
+        self.probed = []
+        # the model is built the way a user builds it: ClassName(...) - whichever __init__ Python would run (the
+        # class's own, an inherited one, the one a dataclass generates)
+        iv, sl = ListV([p[0] for p in self.pairs]), ListV([p[1] for p in self.pairs])
+        if positional:
+            # the documented order: name_i, name_j, intervals, slopes
+            r = self.I.construct(self.ci, ['A', 'B', iv, sl], {})
+        else:
+            r = self.I.construct(self.ci, [], {'name_i': 'A', 'name_j': 'B', 'intervals': iv, 'slopes': sl})
+        self.obj = r if isinstance(r, Obj) else None
+        self.init_result = r if isinstance(r, Raised) else None
 
     def new_bp(self, name, rank):
         self.ranks[name] = _rank(rank)
@@ -77,19 +109,36 @@ class World:
         # an insertion equal to the first breakpoint is the number 0 itself (the first breakpoint of every model)
         x = self.new_bp('x%d' % self.counter, rank) if rank != 0 else C(0)
         s = self.I.D.sym('k%d' % self.counter)
-        r = self.I.call_method(self.obj, 'insert', [], {'interval': x, 'slope': s})
+        # (the documented call m.insert(interval, slope), by position and by name in turn)
+        if self.counter % 2:
+            r = self.I.call_method(self.obj, 'insert', [x, s], {})
+        else:
+            r = self.I.call_method(self.obj, 'insert', [], {'interval': x, 'slope': s})
         # reference: sorted insertion, after any equal breakpoint
         pos = len([p for p in self.pairs if p[2] <= rank])
         self.pairs.insert(pos, (x, s, Fr(rank)))
         return r
 
-    def probe(self):
-        self.ranks['xq'] = _rank(12)
+    def probe(self, also=()):
+        """the coverage sweep of a user between two edits: the value is decided elsewhere, what matters is what the
+        evaluation leaves behind.  The coverages are evaluated again after the edits (``invariants``)."""
         D = self.I.D
-        return self.I.call_method(self.obj, 'get_UoRT', [], {'x': D.sym('xq'), 'T': D.sym('T')})
+        r = None
+        for code in PROBES + tuple(also):
+            if code not in self.probed:
+                self.probed.append(Fr(code))
+            if code == PROBES[0]:
+                r = self.I.call_method(self.obj, 'get_UoRT', [_cov(self, code)[1], D.sym('T')], {})
+            else:
+                r = self.I.call_method(self.obj, 'get_UoRT', [], {'x': _cov(self, code)[1], 'T': D.sym('T')})
+        return r
 
     def pop(self, i):
-        r = self.I.call_method(self.obj, 'pop', [], {'i': C(i)})
+        self.n_pop = getattr(self, 'n_pop', 0) + 1
+        if self.n_pop % 2:
+            r = self.I.call_method(self.obj, 'pop', [C(i)], {})
+        else:
+            r = self.I.call_method(self.obj, 'pop', [], {'i': C(i)})
         if i != 0 and -len(self.pairs) <= i < len(self.pairs):
             self.pairs.pop(i)
         return r
@@ -98,8 +147,10 @@ class World:
 class View:
     """another model living in the interpreter of a World, with its own reference pair list"""
 
-    def __init__(self, w, obj, pairs):
+    def __init__(self, w, obj, pairs, probed=()):
         self.I, self.ranks, self.ci, self.obj, self.pairs = w.I, w.ranks, w.ci, obj, list(pairs)
+        # coverages this model, or a model next to it, has been evaluated at before
+        self.probed = [Fr(c_) for c_ in probed]
 
 
 def two_models(run, repo, ci):
@@ -123,8 +174,7 @@ def two_models(run, repo, ci):
         return [list(v.items) if isinstance(v, ListV) else None for v in got]
 
     def value(o, rank):
-        w.ranks['xq'] = _rank(rank)
-        return I.call_method(o, 'get_UoRT', [], {'x': D.sym('xq'), 'T': D.sym('T')})
+        return I.call_method(o, 'get_UoRT', [], {'x': _cov(w, rank)[1], 'T': D.sym('T')})
 
     a, b = build('a'), build('b')
     key0 = 'lists omitted' if ('intervals' in defaults or 'slopes' in defaults) else 'lists given'
@@ -154,17 +204,19 @@ def two_models(run, repo, ci):
               '(breakpoints %s -> %s, value below/above the new breakpoint %s -> %s)'
               % (show(ListV(snap[0]), 60), show(ListV(lists(b)[0]), 60), show(ListV(before), 100),
                  show(ListV(after), 100)), owner.module, fn)
+    if all(x is not None for x in rk) and rk == sorted(rk) and rk and rk[0] == 0 and Fr(5) not in rk:
+        pos = len([x for x in rk if x <= 5])
+        pairs_a.insert(pos, (xa, ka, Fr(5)))
+        # (3 and 7: where the OTHER model was evaluated last - what one model computed for a coverage is not what
+        # another model has there)
+        invariants(run, View(w, a, pairs_a, probed=(3, 7)), 'edited model next to another, ' + key0,
+                   _method(repo, ci, 'insert'))
     c_ = build('b')
     run.check(not isinstance(c_, Raised) and None not in lists(c_) and same_lists(lists(c_), snap),
               'EFFECT.shared-state', 'PiecewiseCovEffect.__init__', 'build after an edit, ' + key0,
               'a model built after another model was edited starts as %s / %s, the same construction before the edit '
               'gave %s / %s' % (tuple(show(ListV(v), 60) if v is not None else '?' for v in lists(c_))
                                 + tuple(show(ListV(v), 60) for v in snap)), owner.module, fn)
-    if all(x is not None for x in rk) and rk == sorted(rk) and rk and rk[0] == 0 and Fr(5) not in rk:
-        pos = len([x for x in rk if x <= 5])
-        pairs_a.insert(pos, (xa, ka, Fr(5)))
-        invariants(run, View(w, a, pairs_a), 'edited model next to another, ' + key0,
-                   _method(repo, ci, 'insert'))
 
 
 def invariants(run, w, label, owner_fn, on_breakpoints=True):
@@ -180,6 +232,13 @@ def invariants(run, w, label, owner_fn, on_breakpoints=True):
                      'intervals and slopes must have the same length as the number of breakpoints '
                      '(%d): %s / %s' % (len(w.pairs), show(iv, 60), show(sl, 60)), mod, fn):
         return False
+    # the constructor was given two lists, and lists are what the class documents and edits (list.insert / list.pop,
+    # also in the hands of the user): an edit must not leave another kind of sequence behind
+    kinds = (_kind(iv), _kind(sl))
+    run.check(kinds == ('list', 'list'), 'TYPE.container', 'PiecewiseCovEffect', label,
+              'the model was built from two lists; now intervals is a %s and slopes a %s (the documented attributes are '
+              'lists: a later insert / pop / append on them is not available or does something else)' % kinds, mod, fn,
+              sig='intervals:%s slopes:%s' % kinds)
     # ascending order and pairing
     ok_order = all(same(a, p[0]) for a, p in zip(iv.items, w.pairs))
     run.check(ok_order, 'ORDER.ascending', 'PiecewiseCovEffect', label,
@@ -209,9 +268,14 @@ def invariants(run, w, label, owner_fn, on_breakpoints=True):
         if nxt > r:
             positions.append(((r + nxt) / 2, 'inside piece %d' % k))
     positions.append((rk[-1] + 7, 'beyond the last breakpoint'))
+    # ... and where the model was evaluated before it was edited (a coverage asked for a second time)
+    for r in w.probed:
+        if r not in [p[0] for p in positions]:
+            positions.append((r, 'evaluated before the edit: on a breakpoint' if r in rk else
+                              'evaluated before the edit: beyond the last breakpoint' if r > rk[-1] else
+                              'evaluated before the edit: inside piece %d' % max(i for i, rr in enumerate(rk) if rr <= r)))
     for r, txt in positions:
-        w.ranks['xq'] = _rank(r)
-        x = D.sym('xq')
+        xname, x = _cov(w, r)
         got = I.call_method(o, 'get_UoRT', [], {'x': x, 'T': T})
         k = max(i for i, rr in enumerate(rk) if rr <= r)
         want = (sl.items[k] * x + ic.items[k]) / (Rk * T)
@@ -226,12 +290,12 @@ def invariants(run, w, label, owner_fn, on_breakpoints=True):
                 # may use either): the values are compared with the breakpoint written for the coverage - the
                 # number 0 for the first one
                 for j in range(k2, k + 1):
-                    g_, w_ = _subst(got, 'xq', w.pairs[j][0]), _subst(want, 'xq', w.pairs[j][0])
+                    g_, w_ = _subst(got, xname, w.pairs[j][0]), _subst(want, xname, w.pairs[j][0])
                     if g_ is not None and w_ is not None and same(g_, w_):
                         good = True
                         break
         # the right slope with another offset: the pieces do not join (continuity); anything else: wrong piece
-        offset_only = not good and isinstance(got, Rat) and D.d(got - want, 'xq').iszero()
+        offset_only = not good and isinstance(got, Rat) and D.d(got - want, xname).iszero()
         run.check(good, 'REF.continuity' if offset_only else 'REF.lookup', 'PiecewiseCovEffect.get_UoRT',
                   label + ' / x ' + txt,
                   'at coverage %s the value is %s, expected piece %d of the continuous piecewise-linear energy that '
@@ -268,8 +332,7 @@ def reloaded(run, w, key):
         ic = C(0)
         for k in range(1, len(w.pairs)):
             ic = ic + (w.pairs[k - 1][1] - w.pairs[k][1]) * w.pairs[k][0]
-        w.ranks['xq'] = _rank(w.pairs[-1][2] + 7)
-        x, T = D.sym('xq'), D.sym('T')
+        x, T = _cov(w, w.pairs[-1][2] + 7)[1], D.sym('T')
         got = I.call_method(o2, 'get_UoRT', [], {'x': x, 'T': T})
         want = (w.pairs[-1][1] * x + ic) / (D.sym('kb') * D.sym('Na') * D.sym('U<kcal>') * T)
         if not same(got, want):
@@ -323,7 +386,7 @@ def edges(run, repo, ins_owner, pop_owner):
         w = World(repo, n_init)
         if isinstance(w.init_result, Raised):
             return
-        w.probe()
+        w.probe(also=(SCALE,))
         r = w.insert(SCALE)
         if isinstance(r, Raised):
             run.fail('REF.insert', 'PiecewiseCovEffect.insert', 'insert at coverage 1', 'insert of a breakpoint at '
@@ -335,8 +398,9 @@ def edges(run, repo, ins_owner, pop_owner):
 
 def check(run, repo):
     run.explanation = (
-        'PiecewiseCovEffect is interpreted abstractly through its real constructor, insert, pop and '
-        'get_UoRT with symbolic breakpoints and slopes whose ordering is supplied by an ordering oracle (all breakpoints '
+        'PiecewiseCovEffect is interpreted abstractly: built the way a user builds it (ClassName(...) with keyword and '
+        'with positional arguments - whichever __init__ Python runs), edited through insert and pop and evaluated through '
+        'get_UoRT (called by position and by name in turn) with symbolic breakpoints and slopes whose ordering is supplied by an ordering oracle (all breakpoints '
         'and coverages lie in [0, 1]: position code/40). After every '
         'sequence of operations (1-3 initial breakpoints; up to 2 (quick) / 3 (thorough) inserts equal to the first '
         'breakpoint (the number 0), below, between, '
@@ -354,7 +418,13 @@ def check(run, repo):
         'breakpoint; removal by every index a model of 2-5 breakpoints has, counted from either end, and by indices '
         'it does not have (refused, model untouched); an insert at coverage 1; two models are alive in one '
         'interpreter, built with the list arguments omitted when the '
-        'constructor has defaults for them: editing one leaves the other and a model built afterwards as they were.')
+        'constructor has defaults for them: editing one leaves the other and a model built afterwards as they were. '
+        'Every coverage is a symbol of its own whose position is fixed (the same coverage asked twice is the same '
+        'number): before an edit the model is evaluated between the initial breakpoints, above all breakpoints and on '
+        'the coverage the edit touches, and after the edits again at those coverages; an edited model is also '
+        'evaluated where the model next to it (and the original of a reloaded copy) was evaluated last. After every edit '
+        'intervals and slopes are still lists (not tuples / numpy arrays). get_UoRT with the documented defaults '
+        '(coverage 0, 298.15 K).')
     run.assumptions = ['np.argmax of a boolean array is the index of the first True and 0 when there is none']
     run.undecided = ['numeric evaluation with floating-point breakpoints']
     ci = repo.cls(COV)
@@ -399,7 +469,10 @@ def check(run, repo):
                 # evaluation must not leave anything behind that survives the next edit. The value itself was
                 # decided when this prefix was the whole sequence.
                 if pattern == 'every' or n_op == 0:
-                    w.probe()
+                    # ... also where the edit is going to happen: on the coverage of the new breakpoint / of the
+                    # breakpoint that is removed
+                    n_ = len(w.pairs)
+                    w.probe(also=(arg,) if op == 'insert' else (w.pairs[arg][2],) if -n_ <= arg < n_ else ())
                 if op == 'insert':
                     r = w.insert(arg)
                     last_owner = ins_owner
@@ -453,52 +526,86 @@ def check(run, repo):
     run.extra['sequences'] = n_seq
     edges(run, repo, ins_owner, pop_owner)
     two_models(run, repo, ci)
-    # entropy and heat capacities vanish
-    I = Interp(repo)
-    o = Obj('cov', ci)
-    for q in ('get_SoR', 'get_CvoR', 'get_CpoR'):
-        owner, fn = repo.find_method(ci, q)
-        got = I.call_method(o, q, [], {})
-        run.check(same(got, C(0)), 'REF.zero', 'PiecewiseCovEffect.' + q, 'zero', 'coverage effects must contribute '
-                  'no %s (got %s)' % (q[4:], show(got)), owner.module, fn)
+    # a model built with positional arguments (the sequences and from_dict pass keywords) is the same model
+    for n_init in (2, 3) if run.tier == 'thorough' else (2,):
+        w = World(repo, n_init, positional=True)
+        if isinstance(w.init_result, Raised):
+            run.fail('REF.construct', 'PiecewiseCovEffect.__init__', 'positional arguments', 'PiecewiseCovEffect(name_i, '
+                     'name_j, intervals, slopes) raises %s' % w.init_result.exc, *init_owner)
+            continue
+        if invariants(run, w, 'built with positional arguments', init_owner):
+            w.probe(also=(5,))
+            if not isinstance(w.insert(5), Raised):
+                invariants(run, w, 'built with positional arguments, after insert', ins_owner)
+    energy_forms_and_zeros(run, repo, ci)
+    roundtrip(run, repo, ci, ins_owner)
+
+
+def energy_forms_and_zeros(run, repo, ci):
+    # entropy and heat capacities vanish: of a model as built, and of the same model after an edit
+    w = World(repo, 2)
+    if isinstance(w.init_result, Raised):
+        return                          # reported by the sequences
+    for when in ('zero', 'zero after an insert'):
+        for q in ('get_SoR', 'get_CvoR', 'get_CpoR'):
+            owner, fn = repo.find_method(ci, q)
+            got = w.I.call_method(w.obj, q, [], {})
+            run.check(same(got, C(0)), 'REF.zero', 'PiecewiseCovEffect.' + q, when, 'coverage effects must '
+                      'contribute no %s (got %s)' % (q[4:], show(got)), owner.module, fn)
+        if isinstance(w.insert(5), Raised):
+            break
     # with no entropy, every energy form (H, F, G) is the same excess energy as U at the temperature asked for, and
     # is independent of temperature in energy units
     w = World(repo, 2)
-    w.ranks['xq'] = _rank(5)
+    if isinstance(w.init_result, Raised):
+        return                          # reported by the sequences
     Dw = w.I.D
-    xq, Tq = Dw.sym('xq'), Dw.sym('Tq')
-    u = w.I.call_method(w.obj, 'get_UoRT', [], {'x': xq, 'T': Tq})
-    for q in ('get_HoRT', 'get_FoRT', 'get_GoRT'):
-        if repo.find_method(ci, q, missing_ok=True) is None:
-            continue
-        owner, fn = repo.find_method(ci, q)
-        run.fn(owner.qual + '.' + q)
-        got = w.I.call_method(w.obj, q, [], {'x': xq, 'T': Tq})
-        run.check(isinstance(got, Rat) and isinstance(u, Rat) and same(got, u), 'TWIN.energy-forms',
-                  'PiecewiseCovEffect.' + q, 'same excess energy as U',
-                  '%s(x, T) is %s but the excess energy U/RT at the same coverage and temperature is %s'
-                  % (q, show(got, 120), show(u, 120)), owner.module, fn)
-        run.check(isinstance(got, Rat) and Dw.d(got * Tq, 'Tq').iszero(), 'DERIV.T-free', 'PiecewiseCovEffect.' + q,
-                  'temperature independent', 'T * %s depends on temperature: the excess energy in energy units must '
-                  'not' % q[4:], owner.module, fn)
-    # ... and still after an edit: nothing an energy form computed before the edit may survive it
-    r_ins = w.insert(15)
-    if not isinstance(r_ins, Raised):
-        w.ranks['xq'] = _rank(17)
+    Tq = Dw.sym('Tq')
+    forms = [q for q in ('get_HoRT', 'get_FoRT', 'get_GoRT') if repo.find_method(ci, q, missing_ok=True) is not None]
+
+    def energy_forms(code, key, history):
+        xq = _cov(w, code)[1]
         u = w.I.call_method(w.obj, 'get_UoRT', [], {'x': xq, 'T': Tq})
-        for q in ('get_HoRT', 'get_FoRT', 'get_GoRT'):
-            if repo.find_method(ci, q, missing_ok=True) is None:
-                continue
+        for q in forms:
             owner, fn = repo.find_method(ci, q)
+            run.fn(owner.qual + '.' + q)
             got = w.I.call_method(w.obj, q, [], {'x': xq, 'T': Tq})
             run.check(isinstance(got, Rat) and isinstance(u, Rat) and same(got, u), 'TWIN.energy-forms',
-                      'PiecewiseCovEffect.' + q, 'same excess energy as U after an insert',
-                      'evaluated, then a breakpoint inserted, then evaluated above it: %s(x, T) is %s but the excess '
-                      'energy U/RT at the same coverage and temperature is %s'
-                      % (q, show(got, 120), show(u, 120)), owner.module, fn)
+                      'PiecewiseCovEffect.' + q, 'same excess energy as U' + key,
+                      '%s%s(x, T) is %s but the excess energy U/RT at the same coverage and temperature is %s'
+                      % (history, q, show(got, 120), show(u, 120)), owner.module, fn)
+            if not key:
+                run.check(isinstance(got, Rat) and Dw.d(got * Tq, 'Tq').iszero(), 'DERIV.T-free',
+                          'PiecewiseCovEffect.' + q, 'temperature independent', 'T * %s depends on temperature: the '
+                          'excess energy in energy units must not' % q[4:], owner.module, fn)
+
+    energy_forms(5, '', '')
+    # the documented defaults: coverage 0 (where the excess energy is zero), 298.15 K
+    o_u, f_u = repo.find_method(ci, 'get_UoRT')
+    got0 = w.I.call_method(w.obj, 'get_UoRT', [], {'T': Tq})
+    run.check(same(got0, C(0)), 'REF.default', 'PiecewiseCovEffect.get_UoRT', 'default coverage',
+              'get_UoRT(T=T) - at the documented default coverage 0 - is %s: the excess energy is zero at zero '
+              'coverage' % show(got0, 100), o_u.module, f_u)
+    x5 = _cov(w, 5)[1]
+    got_d = w.I.call_method(w.obj, 'get_UoRT', [], {'x': x5})
+    got_e = w.I.call_method(w.obj, 'get_UoRT', [], {'x': x5, 'T': C(Fr('298.15'))})
+    run.check(isinstance(got_d, Rat) and same(got_d, got_e), 'REF.default', 'PiecewiseCovEffect.get_UoRT',
+              'default temperature', 'get_UoRT(x=x) is %s but get_UoRT(x=x, T=298.15) - the documented default '
+              'temperature - is %s' % (show(got_d, 100), show(got_e, 100)), o_u.module, f_u)
+    energy_forms(17, ' at a second coverage', 'evaluated below a breakpoint, then above it: ')
+    # ... and still after an edit: nothing an energy form computed before the edit may survive it (the coverage was
+    # asked before the edit, too)
+    r_ins = w.insert(15)
+    if not isinstance(r_ins, Raised):
+        energy_forms(17, ' after an insert', 'evaluated, then a breakpoint inserted, then evaluated above it: ')
+        energy_forms(5, ' below an insert', 'evaluated, then a breakpoint inserted, then evaluated below it: ')
+
+
+def roundtrip(run, repo, ci, ins_owner):
     # serialise / reload
     w = World(repo, 3)
-    w.insert(15)
+    if isinstance(w.init_result, Raised) or isinstance(w.insert(15), Raised):
+        return                          # reported by the sequences
     d = w.I.call_method(w.obj, 'to_dict', [], {})
     owner, fn = repo.find_method(ci, 'from_dict')
     if isinstance(d, DictV):
@@ -508,8 +615,7 @@ def check(run, repo):
                                          for k in ('intervals', 'slopes', 'name_i', 'name_j'))
         if ok:
             # and it evaluates like the original (whatever private state the reload has to rebuild)
-            w.ranks['xq'] = _rank(17)
-            xq2, Tq2 = w.I.D.sym('xq'), w.I.D.sym('Tq')
+            xq2, Tq2 = _cov(w, 17)[1], w.I.D.sym('Tq')
             ok = same(w.I.call_method(o2, 'get_UoRT', [], {'x': xq2, 'T': Tq2}),
                       w.I.call_method(w.obj, 'get_UoRT', [], {'x': xq2, 'T': Tq2}))
         run.check(ok, 'TABLE.roundtrip', 'PiecewiseCovEffect.from_dict', 'to_dict->from_dict',
@@ -518,7 +624,7 @@ def check(run, repo):
         if ok:
             # the reloaded copy, the dictionary and the original are independent: editing one leaves the others as
             # they were (a dictionary that shares its lists with the model is not a saved state)
-            xq2, Tq2 = w.I.D.sym('xq'), w.I.D.sym('Tq')
+            xq2, Tq2 = _cov(w, 17)[1], w.I.D.sym('Tq')
             before = w.I.call_method(w.obj, 'get_UoRT', [], {'x': xq2, 'T': Tq2})
             def n_bp():
                 v = _attr(w.I, w.obj, 'intervals')
@@ -539,7 +645,17 @@ def check(run, repo):
                 # the copy was evaluated, then edited: it is the reference function of its own pair list
                 pairs2 = list(w.pairs)
                 pairs2.insert(len([p for p in pairs2 if p[2] <= 12]), (w.I.D.sym('xnew'), w.I.D.sym('knew'), Fr(12)))
-                invariants(run, View(w, o2, pairs2), 'reloaded copy after insert', ins_owner)
+                v2 = View(w, o2, pairs2, probed=(17,))
+                if invariants(run, v2, 'reloaded copy after insert', ins_owner):
+                    # ... and a breakpoint it was reloaded with is removed again
+                    o_p, f_p = repo.find_method(ci, 'pop')
+                    r_pop = w.I.call_method(o2, 'pop', [C(1)], {})
+                    v2.pairs.pop(1)
+                    if run.check(not isinstance(r_pop, Raised), 'REF.pop', 'PiecewiseCovEffect.pop',
+                                 'reloaded copy', 'pop(1) on the reloaded and edited copy raises %s'
+                                 % getattr(r_pop, 'exc', None), o_p.module, f_p):
+                        v2.probed.append(Fr(10))
+                        invariants(run, v2, 'reloaded copy after insert and pop', (o_p.module, f_p))
             d2 = w.I.call_method(w.obj, 'to_dict', [], {})
             saved = [len(v.items) for v in d2.d.values() if isinstance(v, ListV)] if isinstance(d2, DictV) else []
             w.I.call_method(w.obj, 'insert', [], {'interval': w.I.D.sym('xnew2'), 'slope': w.I.D.sym('knew2')}) \
@@ -578,6 +694,17 @@ def _where(op, w):
 
 
 C_ = 'pmutt/mixture/cov.py'
+_LOOK = '        i = np.argmax(x < np.array(self.intervals)) - 1'
+_INIT = '        self._set_intercepts()\n        self.name = name'
+_MEMO = ('        if x not in self._pieces:\n            self._pieces[x] = np.argmax(x < np.array(self.intervals)) - 1\n'
+         '        i = self._pieces[x]')
+_TWO_INSERTS = '        self.intervals.insert(i, interval)\n        self.slopes.insert(i, slope)\n'
+_DATACLASS = [
+    (C_, 'import numpy as np\n', 'from dataclasses import dataclass\nfrom typing import List, Optional\n\nimport numpy as np\n'),
+    (C_, 'class PiecewiseCovEffect(_ModelBase):', '@dataclass(eq=False, repr=False)\nclass PiecewiseCovEffect(_ModelBase):')]
+_HAND_INIT = ('    def __init__(self, name_i, name_j, intervals, slopes, name=None):\n        self.name_i = name_i\n'
+              '        self.name_j = name_j\n        self.intervals = intervals\n        self.slopes = slopes\n'
+              '        self._set_intercepts()\n        self.name = name\n')
 MUTANTS = [
     {'name': 'the first breakpoint can be removed', 'expect': ('REF.pop', 'pop'),
      'edits': [('pmutt/mixture/cov.py', "        if i == 0:\n            err_msg = 'First index cannot be removed'", "        if i is None:\n            err_msg = 'First index cannot be removed'")]},
@@ -641,7 +768,70 @@ MUTANTS = [
                 '        i = self.intervals.index(lower)')]},
     {'name': 'numpy truth value compared with the singleton True', 'expect': ('ORDER.ascending', 'PiecewiseCovEffect'),
      'edits': [(C_, '        if np.any(larger):', '        if np.any(larger) is True:')]},
+    # white-box review, round 3: one symbol per coverage (what is remembered per coverage is looked up again after the
+    # edit, at the coverage of the edit, in another model), the kind of container an edit leaves behind, construction
+    # and calls by position, documented defaults, numpy on generator objects
+    {'name': 'piece index remembered per coverage, never forgotten', 'expect': ('REF.lookup', 'get_UoRT'),
+     'edits': [(C_, _INIT, '        self._pieces = {}\n' + _INIT), (C_, _LOOK, _MEMO)]},
+    {'name': 'piece index remembered per coverage, forgotten by insert but not by pop', 'expect': ('REF.lookup', 'get_UoRT'),
+     'edits': [(C_, _INIT, '        self._pieces = {}\n' + _INIT),
+               (C_, '        self.slopes.insert(i, slope)\n', '        self.slopes.insert(i, slope)\n        self._pieces = {}\n'),
+               (C_, _LOOK, _MEMO)]},
+    {'name': 'piece index forgotten for the coverages above a new breakpoint, not for the one on it',
+     'expect': ('REF.', 'get_UoRT'),
+     'edits': [(C_, _INIT, '        self._pieces = {}\n' + _INIT),
+               (C_, '        self.slopes.insert(i, slope)\n', '        self.slopes.insert(i, slope)\n'
+                '        self._pieces = {k: v for k, v in self._pieces.items() if k < interval}\n'),
+               (C_, '        self.slopes.pop(i)\n', '        self.slopes.pop(i)\n        self._pieces = {}\n'),
+               (C_, _LOOK, _MEMO)]},
+    {'name': 'value remembered per (coverage, temperature), never forgotten', 'expect': ('REF.', 'get_UoRT'),
+     'edits': [(C_, _INIT, '        self._memo = {}\n' + _INIT),
+               (C_, _LOOK, '        if (x, T) in self._memo:\n            return self._memo[x, T]\n' + _LOOK),
+               (C_, '        return UoRT\n', '        self._memo[x, T] = UoRT\n        return UoRT\n')]},
+    {'name': 'piece index per coverage in one dictionary shared by all models (emptied by every edit)',
+     'expect': ('REF.lookup', 'get_UoRT'),
+     'edits': [(C_, '    def __init__(self, name_i, name_j, intervals, slopes, name=None):',
+                '    _pieces = {}\n\n    def __init__(self, name_i, name_j, intervals, slopes, name=None):'),
+               (C_, '        self._intercepts = []\n', '        self._intercepts = []\n        for key in list(self._pieces):\n'
+                '            del self._pieces[key]\n'),
+               (C_, _LOOK, _MEMO)]},
+    {'name': 'insert leaves numpy arrays behind', 'expect': ('TYPE.container', 'PiecewiseCovEffect'),
+     'edits': [(C_, _TWO_INSERTS,
+                '        self.intervals = np.concatenate((self.intervals[:i], [interval], self.intervals[i:]))\n'
+                '        self.slopes = np.concatenate((self.slopes[:i], [slope], self.slopes[i:]))\n')]},
+    {'name': 'insert leaves tuples behind', 'expect': ('TYPE.container', 'PiecewiseCovEffect'),
+     'edits': [(C_, _TWO_INSERTS,
+                '        self.intervals = tuple(self.intervals[:i]) + (interval,) + tuple(self.intervals[i:])\n'
+                '        self.slopes = tuple(self.slopes[:i]) + (slope,) + tuple(self.slopes[i:])\n')]},
+    {'name': 'numpy truth value of a generator expression', 'expect': ('ORDER.ascending', 'PiecewiseCovEffect'),
+     'edits': [(C_, '        larger = interval < np.array(self.intervals)\n        if np.any(larger):\n'
+                '            i = np.argmax(larger)\n',
+                '        if np.any(interval < existing for existing in self.intervals):\n'
+                '            i = np.argmax(interval < np.array(self.intervals))\n')]},
+    {'name': 'constructor takes the slopes before the breakpoints', 'expect': ('', 'PiecewiseCovEffect'),
+     'edits': [(C_, '    def __init__(self, name_i, name_j, intervals, slopes, name=None):',
+                '    def __init__(self, name_i, name_j, slopes, intervals, name=None):')]},
+    {'name': 'dataclass whose fields are not in the order of the documented arguments', 'expect': ('', 'PiecewiseCovEffect'),
+     'edits': _DATACLASS + [(C_, _HAND_INIT, '    name_i: str\n    name_j: str\n    slopes: List[float]\n'
+                             '    intervals: List[float]\n    name: Optional[str] = None\n\n'
+                             '    def __post_init__(self):\n        self._set_intercepts()\n')]},
+    {'name': 'default coverage of get_UoRT is a full monolayer', 'expect': ('REF.default', 'get_UoRT'),
+     'edits': [(C_, "    def get_UoRT(self, x=0., T=c.T0('K')):", "    def get_UoRT(self, x=1., T=c.T0('K')):")]},
+    {'name': 'default temperature of get_UoRT is 273.15 K', 'expect': ('REF.default', 'get_UoRT'),
+     'edits': [(C_, "    def get_UoRT(self, x=0., T=c.T0('K')):", "    def get_UoRT(self, x=0., T=273.15):")]},
+    {'name': 'insertion by a sort that puts the new piece before an equal breakpoint', 'expect': ('', 'PiecewiseCovEffect'),
+     'edits': [(C_, _TWO_INSERTS,
+                '        pieces = sorted(zip([interval] + self.intervals, [slope] + self.slopes), key=lambda piece: piece[0])\n'
+                '        self.intervals[:] = [piece[0] for piece in pieces]\n'
+                '        self.slopes[:] = [piece[1] for piece in pieces]\n')]},
 ]
+# PENDING (white-box round 3; need the interpreter changes asked for in /tmp/gaps3/REQ3_C17.md, then move into MUTANTS):
+#   A1 'insert leaves tuples behind (columns of zip(*pieces))', expect ('TYPE.container', 'PiecewiseCovEffect'):
+#      _TWO_INSERTS -> 'pieces = list(zip(self.intervals, self.slopes)); pieces.insert(i, (interval, slope));
+#      self.intervals, self.slopes = list(zip(*pieces))'                       (items of zip are not tuples yet)
+#   A2 'intercepts in an integer buffer made from integer literals', expect ('TYPE.int-buffer', '_set_intercepts'):
+#      'intercepts = np.array([0] * len(self.slopes))' + the recurrence storing into it + '.tolist()'
+#   A4 'evaluation by np.interp over the energies at the breakpoints', expect ('REF.', 'get_UoRT')
 EQUIV = [
     # white-box review, round 2 (behaviour-preserving: must stay silent)
     {'name': 'shortcut at zero coverage',
@@ -662,4 +852,24 @@ EQUIV = [
      'edits': [(C_, '        self.intervals.insert(i, interval)\n', "        if interval < 0. or interval > 1.:\n"
                 "            raise ValueError('Intervals are coverages between 0 and 1 ML')\n"
                 '        self.intervals.insert(i, interval)\n')]},
+    # white-box review, round 3
+    {'name': 'the class as a dataclass with __post_init__',
+     'edits': _DATACLASS + [(C_, _HAND_INIT, '    name_i: str\n    name_j: str\n    intervals: List[float]\n'
+                             '    slopes: List[float]\n    name: Optional[str] = None\n\n'
+                             '    def __post_init__(self):\n        self._set_intercepts()\n')]},
+    {'name': 'piece index remembered per coverage, forgotten by _set_intercepts',
+     'edits': [(C_, '        self._intercepts = []\n', '        self._intercepts = []\n        self._pieces = {}\n'),
+               (C_, _LOOK, _MEMO)]},
+    {'name': 'value remembered per (coverage, temperature), forgotten by _set_intercepts',
+     'edits': [(C_, '        self._intercepts = []\n', '        self._intercepts = []\n        self._memo = {}\n'),
+               (C_, _LOOK, '        if (x, T) in self._memo:\n            return self._memo[x, T]\n' + _LOOK),
+               (C_, '        return UoRT\n', '        self._memo[x, T] = UoRT\n        return UoRT\n')]},
+    {'name': 'insertion by a stable sort of the pieces',
+     'edits': [(C_, _TWO_INSERTS,
+                '        pieces = sorted(zip(self.intervals + [interval], self.slopes + [slope]), key=lambda piece: piece[0])\n'
+                '        self.intervals[:] = [piece[0] for piece in pieces]\n'
+                '        self.slopes[:] = [piece[1] for piece in pieces]\n')]},
+    {'name': 'default temperature resolved in the body',
+     'edits': [(C_, "    def get_UoRT(self, x=0., T=c.T0('K')):", "    def get_UoRT(self, x=0., T=None):"),
+               (C_, _LOOK, "        if T is None:\n            T = c.T0('K')\n" + _LOOK)]},
 ]
